@@ -27,7 +27,7 @@ structure St where
   /-- snapshots taken by `snap`, oldest first -/
   snaps : List (Nat Ã— Nat Ã— Nat) := []
   /-- `(prefix words, encoded (P, cum, p) newest first)`; `none` once the big-number
-      reference no longer applies (raw start, `clear`) -/
+      reference no longer applies (raw start, invalid pair); `clear` starts it afresh -/
   hist : Option (List Nat Ã— List (Nat Ã— Nat Ã— Nat)) := none
 
 def cfgOf (W S B P : Nat) : Cfg := { W := W, S := S, P := P, B := B }
@@ -178,7 +178,9 @@ def encOp (W S : Nat) (st : St) (e : Encoder) (seg : List String) : Option (St Ã
          toHex n ++ " " ++ toHex lo ++ " " ++ toHex r)))
   | ["raw"] => some (st, showEnc e, false)
   | ["clone"] => some (st, "ok", false)
-  | ["clear"] => some ({ st with mode := .enc (clear c e), hist := none }, "ok", false)
+  | ["clear"] =>
+      -- the encoder is as new: the reference applies again, to the messages encoded from here on
+      some ({ st with mode := .enc (clear c e), hist := some ([], []) }, "ok", false)
   | ["intodec"] =>
       some (mOut st (intoDecoder c e) (fun d => ({ st with mode := .dec d }, "ok")))
   | ["intodec2"] =>
